@@ -7,3 +7,4 @@ pub mod smooth;
 pub mod ec;
 pub mod linalg;
 pub mod qpoly;
+pub mod poly;
